@@ -76,6 +76,184 @@ def _cvc5(smt2: str, timeout_s: int):
         os.unlink(path)
 
 
+def _size(f):
+    n = 0
+    stack = [f]
+    seen = set()
+    while stack and n < 20000:
+        t = stack.pop()
+        if t.get_id() in seen:
+            continue
+        seen.add(t.get_id())
+        n += 1
+        if z3.is_quantifier(t):
+            stack.append(t.body())
+        else:
+            stack.extend(t.children())
+    return n
+
+
+_sym_cache = {}
+
+
+def _syms(f):
+    i = f.get_id()
+    r = _sym_cache.get(i)
+    if r is not None:
+        return r
+    out = set()
+    stack = [f]
+    seen = set()
+    while stack:
+        t = stack.pop()
+        if t.get_id() in seen:
+            continue
+        seen.add(t.get_id())
+        if z3.is_quantifier(t):
+            stack.append(t.body())
+            continue
+        if z3.is_app(t):
+            d = t.decl()
+            if d.kind() == z3.Z3_OP_UNINTERPRETED:
+                out.add(d.name())
+            stack.extend(t.children())
+    _sym_cache[i] = out
+    return out
+
+
+def _relevance_stage(ob, axioms, seed, t0, per_try_ms=5000):
+    """Relevance filtering (in the style of Sledgehammer's MePo): prove the goal from the
+    hypotheses most related to it by shared symbols, growing the set in rounds.  Any proof from
+    a subset of the hypotheses is a proof."""
+    import math
+    hyps = list(ob.pc)
+    if len(hyps) < 8:
+        return False
+    hs = [_syms(h) for h in hyps]
+    freq = {}
+    for ss in hs:
+        for x in ss:
+            freq[x] = freq.get(x, 0) + 1
+    w = lambda x: 1.0 + 2.0 / math.log(1.0 + freq.get(x, 1) + 1.0)
+    always = {i for i, h in enumerate(hyps) if not _has_quant(h) and _size(h) < 120}
+    R = set(_syms(ob.goal))
+    selected = set()
+    tried = []
+    for thr in (0.7, 0.55, 0.4, 0.3, 0.2):
+        changed = True
+        rounds = 0
+        while changed and rounds < 3:
+            changed = False
+            rounds += 1
+            for i, ss in enumerate(hs):
+                if i in selected or i in always or not ss:
+                    continue
+                tot = sum(w(x) for x in ss)
+                sc = sum(w(x) for x in ss if x in R) / tot if tot else 0
+                if sc >= thr:
+                    selected.add(i)
+                    changed = True
+            for i in selected:
+                R |= hs[i]
+        cur = frozenset(selected | always)
+        if cur in tried or len(cur) == len(hyps):
+            continue
+        tried.append(cur)
+        s = z3.Solver()
+        s.set("timeout", per_try_ms)
+        s.set("random_seed", seed)
+        for a in axioms:
+            s.add(a)
+        for i in sorted(cur):
+            s.add(hyps[i])
+        s.add(z3.Not(ob.goal))
+        if s.check() == z3.unsat:
+            ob.status = "discharged"
+            ob.backend = "z3"
+            ob.seconds = time.time() - t0
+            ob.reason = f"proved from the {len(cur)} most relevant of {len(hyps)} hypotheses (relevance filter, threshold {thr})"
+            return True
+    return False
+
+
+_len_cache = {}
+
+
+def _slen(f):
+    i = f.get_id()
+    if i not in _len_cache:
+        _len_cache[i] = len(f.sexpr())
+    return _len_cache[i]
+
+
+def _small_plus_rare(ob, axioms, seed, t0, per_try_ms=5000):
+    """Prove the goal from the small hypotheses plus the hypotheses that mention a symbol of the
+    goal occurring in few hypotheses (its 'own' facts: loop state, current callee results)."""
+    hyps = list(ob.pc)
+    if len(hyps) < 10:
+        return False
+    hs = [_syms(h) for h in hyps]
+    freq = {}
+    for ss in hs:
+        for x in ss:
+            freq[x] = freq.get(x, 0) + 1
+    gs = _syms(ob.goal)
+    for rare_max in (3, 6):
+        rare = {x for x in gs if freq.get(x, 0) <= rare_max}
+        own = {i for i, ss in enumerate(hs) if ss & rare}
+        for cap in (600, 1500, 5000):
+            keep = own | {i for i, h in enumerate(hyps) if _slen(h) <= cap}
+            if len(keep) == len(hyps):
+                continue
+            s = z3.Solver()
+            s.set("timeout", per_try_ms)
+            s.set("random_seed", seed)
+            for a in axioms:
+                s.add(a)
+            for i in sorted(keep):
+                s.add(hyps[i])
+            s.add(z3.Not(ob.goal))
+            if s.check() == z3.unsat:
+                ob.status = "discharged"
+                ob.backend = "z3"
+                ob.seconds = time.time() - t0
+                ob.reason = f"proved from {len(keep)} of {len(hyps)} hypotheses (small ones <= {cap} chars plus those about the goal's own symbols)"
+                return True
+    return False
+
+
+def _drop_large(ob, axioms, seed, t0, per_try_ms=4000):
+    quant = [(i, _size(p)) for i, p in enumerate(ob.pc) if _has_quant(p)]
+    if len(quant) < 2:
+        return False
+    quant.sort(key=lambda x: -x[1])
+    attempts = [{i for i, _ in quant[:k]} for k in (1, 2, 3, 4, 6, 8, 12, 16) if k < len(quant) + 1]
+    # leave-one-out over the larger quantified hypotheses
+    attempts += [{i} for i, sz in quant[:24] if sz > 150]
+    seen_sets = []
+    for drop in attempts:
+        if drop in seen_sets:
+            continue
+        seen_sets.append(drop)
+        k = len(drop)
+        s = z3.Solver()
+        s.set("timeout", per_try_ms)
+        s.set("random_seed", seed)
+        for a in axioms:
+            s.add(a)
+        for i, p in enumerate(ob.pc):
+            if i not in drop:
+                s.add(p)
+        s.add(z3.Not(ob.goal))
+        if s.check() == z3.unsat:
+            ob.status = "discharged"
+            ob.backend = "z3"
+            ob.seconds = time.time() - t0
+            ob.reason = f"proved from a subset of the hypotheses ({k} large quantified hypothesis(es) dropped)"
+            return True
+    return False
+
+
 def discharge(ob, axioms, timeout_ms=None, use_cvc5=True, seed=0):
     """Decide pc /\\ axioms |= goal.  Sets ob.status / backend / seconds / model."""
     timeout_ms = timeout_ms or QUICK_TIMEOUT_MS
@@ -136,6 +314,15 @@ def discharge(ob, axioms, timeout_ms=None, use_cvc5=True, seed=0):
         ob.reason = "z3: sat"
         return ob
     ob.reason = "z3: " + s.reason_unknown()
+    # stage 4: drop the largest quantified hypotheses (fewer hypotheses: sound).  Large callee
+    # postconditions / invariants that are irrelevant to this goal often drown the instantiation
+    # engine; a proof from a subset of the hypotheses is a proof.
+    if _small_plus_rare(ob, axioms, seed, t0):
+        return ob
+    if _relevance_stage(ob, axioms, seed, t0):
+        return ob
+    if _drop_large(ob, axioms, seed, t0):
+        return ob
     if use_cvc5 and not stage3:
         try:
             smt2 = s.to_smt2().replace("(check-sat)", "")
